@@ -852,3 +852,83 @@ Section DS.
     - unfold to_x. cbn [x_disp]. rewrite Hr. apply tab_length.
   Qed.
 End DS.
+
+(* ------------------------------------------------------------------ the headline theorems on the generated method *)
+
+(* cell (r, c) of a 2-D int array given as rows *)
+Definition cell2 (m : list (list Z)) (r c : Z) : Z := fn_of 0 (fn_of [] m r) c.
+
+Lemma cell2_tab2 nr nc f r c : 0 <= r < nr -> 0 <= c < nc -> cell2 (tab2 nr nc f) r c = f r c.
+Proof. intros Hr Hc. unfold cell2, tab2. rewrite (fn_of_tab nr) by exact Hr. apply fn_of_tab. exact Hc. Qed.
+
+(* the well-shapedness of a call: a non-empty checked dataset, a reference dataset of the same shape, uint16 masks *)
+Definition gen_pre (me other : dataset) : Prop :=
+  0 < ds_nr me /\ 0 <= ds_nc me /\ ds_nr other = ds_nr me /\ ds_nc other = ds_nc me /\
+  forall r c, 0 <= r < ds_nr me -> 0 <= c < ds_nc me -> 0 <= ds_mask me r c < 65536.
+
+Definition gen_call (thr : Q) (me other : dataset) : option xds :=
+  XCheckKernel.g_disparity_checking x_append_band (x_mask_border (ds_nr me) (ds_nc me)) (XFin thr) (to_x me) (to_x other).
+
+Lemma gen_call_eq thr me other : gen_pre me other -> gen_call thr me other = Some (to_x (xcheck thr me other)).
+Proof. intros (H1 & H2 & H3 & H4 & H5). apply gen_xcheck_eq_model; assumption. Qed.
+
+Lemma gen_xcheck_eq_spec thr me other : gen_pre me other -> forall r c,
+  in_ds me r c -> ds_nc me <= 2 ^ 63 -> border_at me r c = false ->
+  spec_valid (ds_mask me r c) = true -> finding_at me other r c = false ->
+  exists out, gen_call thr me other = Some out /\
+    cell2 (x_mask out) r c = Z.lor (ds_mask me r c) (verdict_bit (verdict_at thr me other r c)).
+Proof.
+  intros Hp r c Hin Hnc Hb Hv Hf. eexists. split; [apply gen_call_eq; exact Hp|].
+  unfold to_x. cbn [x_mask]. destruct Hin as [Hr Hc].
+  rewrite cell2_tab2 by (unfold xcheck, xcheck_gen; cbn [ds_nr ds_nc]; assumption).
+  apply xcheck_eq_spec; [split|..]; assumption.
+Qed.
+
+Lemma gen_xcheck_keep_iff thr me other : gen_pre me other -> forall r c,
+  in_ds me r c -> ds_nc me <= 2 ^ 63 -> border_at me r c = false -> spec_valid (ds_mask me r c) = true ->
+  exists out, gen_call thr me other = Some out /\
+    (cell2 (x_mask out) r c = ds_mask me r c <-> verdict_at thr me other r c = Keep).
+Proof.
+  intros Hp r c Hin Hnc Hb Hv. eexists. split; [apply gen_call_eq; exact Hp|].
+  unfold to_x. cbn [x_mask]. destruct Hin as [Hr Hc].
+  rewrite cell2_tab2 by (unfold xcheck, xcheck_gen; cbn [ds_nr ds_nc]; assumption).
+  apply xcheck_keep_iff; [split|..]; assumption.
+Qed.
+
+Lemma gen_invalid_untouched thr me other : gen_pre me other -> forall r c,
+  in_ds me r c -> border_at me r c = false -> spec_valid (ds_mask me r c) = false ->
+  exists out, gen_call thr me other = Some out /\ cell2 (x_mask out) r c = ds_mask me r c.
+Proof.
+  intros Hp r c Hin Hb Hv. eexists. split; [apply gen_call_eq; exact Hp|].
+  unfold to_x. cbn [x_mask]. destruct Hin as [Hr Hc].
+  rewrite cell2_tab2 by (unfold xcheck, xcheck_gen; cbn [ds_nr ds_nc]; assumption).
+  apply xcheck_invalid_untouched; [split|..]; assumption.
+Qed.
+
+(* every uint16 cell the generated method leaves is a uint16 value, and it is the value of the model, which computes
+   in Z without any reduction: none of the [u16] of the generated code ever changed a number *)
+Lemma gen_no_wrap thr me other : gen_pre me other -> ds_nc me <= 2 ^ 63 ->
+  exists out, gen_call thr me other = Some out /\
+    forall r c, in_ds me r c ->
+      cell2 (x_mask out) r c = ds_mask (xcheck thr me other) r c /\ 0 <= cell2 (x_mask out) r c < 65536.
+Proof.
+  intros Hp Hnc. eexists. split; [apply gen_call_eq; exact Hp|].
+  intros r c [Hr Hc]. unfold to_x. cbn [x_mask].
+  rewrite cell2_tab2 by (unfold xcheck, xcheck_gen; cbn [ds_nr ds_nc]; assumption).
+  split; [reflexivity|]. destruct Hp as (_ & _ & _ & _ & Hm).
+  apply xcheck_no_wrap; [split; assumption|exact Hnc|apply Hm; assumption].
+Qed.
+
+(* for ANY two datasets (well-shaped or not) and any callee for mask_border: when the generated method returns, the
+   disparity map, the interval and the offset of the result are those of dataset_left, and one band was appended;
+   dataset_right is an argument that is only read (the translator refuses every store into it) *)
+Lemma gen_disparity_unchanged h_mb thr dl dr out :
+  XCheckKernel.g_disparity_checking x_append_band h_mb thr dl dr = Some out ->
+  x_disp out = x_disp dl /\ x_interval out = x_interval dl /\ x_offset out = x_offset dl /\
+  exists band, x_bands out = x_bands dl ++ [band].
+Proof.
+  unfold XCheckKernel.g_disparity_checking. destruct (x_shape dl) as [nr nc]. cbv zeta.
+  destruct (rows_loop _ _ _ _ _ _) as [[mrows conf]|]; [|discriminate].
+  intro H. injection H as <-.
+  destruct (x_offset _ >? 0); cbn; repeat split; eexists; reflexivity.
+Qed.
